@@ -29,13 +29,15 @@ PROP = {
                   "The concurrent part judges only schedules that occur and is not built with -race in the "
                   "registered tiers (4-5x slower; one manual -race run of the whole quick tier was clean). Trusts bbolt, encoding/json, net/http/httptest.",
     "parts": [
-        {"name": "stats", "pkg": "internal/stats", "files": ["stats/c09_seq_test.go", "stats/c09_conc_test.go"],
+        {"name": "stats", "pkg": "internal/stats", "files": ["stats/c09_seq_test.go", "stats/c09_conc_test.go", "stats/c09_start_test.go"],
          "tests": [
              ("TestVFC09History", (400, 1500), {"steps": 40}),
              ("TestVFC09Concurrent", (120, 500)),
              ("TestVFC09ResetVsFlush", (400, 3000)),
              ("TestVFC09ResetAcrossHourStep", (100, 1000)),
              ("TestVFC09CloseVsFlush", (100, 150)),
+             # New, counted queries, then Start: the start-up order of the application (DNS server before stats.Start)
+             ("TestVFC09StartOrder", (150, 1500)),
          ],
          "plain": ["TestVFC09Scenarios"]},
         # the whole program: installation, real DNS server, dns_config restarts (some failing), production cleanup()
